@@ -124,7 +124,7 @@ def run(seed, tier, lean) -> Result:
                       'compared with the reference definition on the real objects and with the Lean model; the graph '
                       'state is compared before/after each query; non-trivial = an and-step with a necessary parent '
                       'enters the surface through an incremental update')
-    n = 500 if tier == 'quick' else 20000
+    n = 500 if tier == 'quick' else 3000
     hists = [build_history(random.Random(rnd.getrandbits(48))) for _ in range(n)]
     model = run_driver([{'op': 'ag_hist', 'case': i, 'ops': h} for i, h in enumerate(hists)]) if lean['build_ok'] else None
     for hi, ops in enumerate(hists):
